@@ -297,19 +297,20 @@ def check(case):
     return check_history(case)
 
 
-def bfs_cases(quick):
-    out = [{"kind": "bfs", "setup": s} for s in cx.small_setups(max_sites=10, jn=True)]
-    if quick:
-        out = [c for c in out if len(cx.build(c["setup"]).free_sites()) <= 8][::4]
+def bfs_cases(ctx):
+    """catalogue entries of this shard (quick: every third base entry, <= 8 free sites)"""
+    step = 3 if ctx.quick else 1
+    out = [{"kind": "bfs", "setup": s} for s in cx.small_setups(max_sites=10, jn=True, select=lambda n: n % step == 0 and ctx.mine(n // step))]
+    if ctx.quick:
+        out = [c for c in out if len(cx.build(c["setup"]).free_sites()) <= 8]
     return out
 
 
 def run(ctx):
     ctx.corpus(check)
-    bfs = bfs_cases(ctx.quick)
-    ctx.cases([c for i, c in enumerate(bfs) if ctx.mine(i)], check, label="bfs")
-    ctx.note("bounded_exhaustive", "%d catalogue supercells (<=10 mobile sites): every occupation visited by single-site updates, every update to "
-             "every occupation within Hamming distance 2 (all, when <=6 sites) tried, performed and inverted" % len(bfs))
+    ctx.cases(bfs_cases(ctx), check, label="bfs")
+    ctx.note("bounded_exhaustive", "catalogue supercells (<=10 mobile sites; quick: every third, <=8 sites): every occupation visited by single-site updates, "
+             "every update to every occupation within Hamming distance 2 (all, when <=6 sites) tried, performed and inverted")
     ctx.given(cases(max_sites=16), check, quick=260, thorough=6000)
     if not ctx.quick:
         ctx.given(cases(max_sites=24), check, quick=1, thorough=1500, salt=1)
